@@ -5,6 +5,7 @@ writer's `depth` / `bits` tables with the code the reader holds.
 -/
 import BV.Lemmas.MetaBlockTrivial
 import BV.Props.C17
+import BV.Lemmas.HuffmanEntryPoints
 
 namespace BV.MetaBlock
 open BV.Gen BV.Bits BV.Huffman BV.PrefixArith BV.Recoder
@@ -121,5 +122,214 @@ theorem symIO_of_lens (depth' bits' : List Nat) (len A s : Nat)
     have := readSym_spec (depth'.take A) s rest (by omega) hallA hkA (by rw [hgs]; exact h0) h2A
     rw [hgs, ← hcan, ← hbits s hs h0] at this
     exact this
+
+theorem placeLens_single_zero (A s0 i : Nat) : (placeLens A [s0] [0]).getD i 0 = 0 := by
+  simp only [placeLens]
+  rw [List.getD_eq_getElem?_getD, List.getElem?_set]
+  split
+  · split <;> simp
+  · rw [List.getElem?_replicate]; split <;> rfl
+
+/-- a description that `readPrefixCode` reads to a vector with a non-zero length is not the NSYM = 1
+form, so `readCode` returns the same vector -/
+theorem readCode_of_prefix (A : Nat) (bs r : List Bool) (l : List Nat)
+    (h : readPrefixCode A bs = some (l, r)) (hnz : ∃ i, l.getD i 0 ≠ 0) :
+    readCode A bs = some (Code.lens l, r) := by
+  unfold readCode
+  split
+  · rename_i r' heq
+    exfalso
+    obtain ⟨i, hi⟩ := hnz
+    rcases bs with _ | ⟨b0, _ | ⟨b1, _ | ⟨b2, _ | ⟨b3, t⟩⟩⟩⟩
+    · simp [takeBits] at heq
+    · simp [takeBits] at heq
+    · simp [takeBits] at heq
+    · simp [takeBits] at heq
+    · simp only [takeBits, List.length_cons] at heq
+      rw [if_pos (by omega)] at heq
+      simp only [List.take_succ_cons, List.take_zero, valOf, Option.some.injEq, Prod.mk.injEq] at heq
+      obtain ⟨hv, _⟩ := heq
+      have hb : b0 = true ∧ b1 = false ∧ b2 = false ∧ b3 = false := by
+        cases b0 <;> cases b1 <;> cases b2 <;> cases b3 <;> simp at hv ⊢
+      obtain ⟨rfl, rfl, rfl, rfl⟩ := hb
+      simp only [readPrefixCode, takeBits, List.length_cons, Option.bind_eq_bind] at h
+      rw [if_pos (by omega)] at h
+      simp only [List.take_succ_cons, List.take_zero, List.drop_succ_cons, List.drop_zero, valOf, Option.bind_some,
+        List.length_cons] at h
+      rw [if_pos (by decide), if_pos (by omega)] at h
+      simp only [Bool.false_eq_true, if_false, Nat.mul_zero, Nat.add_zero, Option.bind_some, if_true] at h
+      split at h
+      · simp only [Option.bind_some, Option.some.injEq, Prod.mk.injEq] at h
+        rw [← h.1] at hi
+        exact hi (placeLens_single_zero _ _ _)
+      · simp at h
+  · rw [h]
+
+theorem filter_nz_congr : ∀ (l1 l2 : List Nat), l1.length = l2.length →
+    (∀ v, v < l1.length → (l1.getD v 0 ≠ 0 ↔ l2.getD v 0 ≠ 0)) →
+    (l1.filter (· ≠ 0)).length = (l2.filter (· ≠ 0)).length := by
+  intro l1
+  induction l1 with
+  | nil => intro l2 hl _; cases l2 with | nil => rfl | cons _ _ => simp at hl
+  | cons x xs ih =>
+    intro l2 hl h
+    cases l2 with
+    | nil => simp at hl
+    | cons y ys =>
+      have h0 := h 0 (by simp)
+      simp only [List.getD_cons_zero] at h0
+      have := ih ys (by simpa using hl) (fun v hv => by
+        have := h (v + 1) (by simp; omega)
+        simpa using this)
+      rw [List.filter_cons, List.filter_cons]
+      by_cases hx : x = 0
+      · have hy : y = 0 := by
+          rcases Nat.eq_zero_or_pos y with h | h
+          · exact h
+          · exact absurd hx (h0.mpr (by omega))
+        have e1 : decide (x ≠ 0) = false := by simp [hx]
+        have e2 : decide (y ≠ 0) = false := by simp [hy]
+        rw [e1, e2]
+        simp only [Bool.false_eq_true, if_false]
+        exact this
+      · have hy : y ≠ 0 := h0.mp hx
+        have e1 : decide (x ≠ 0) = true := by simp [hx]
+        have e2 : decide (y ≠ 0) = true := by simp [hy]
+        rw [e1, e2]
+        simp only [if_true, List.length_cons]
+        rw [this]
+
+theorem exists_nz_of_filter (l : List Nat) (h : 1 ≤ (l.filter (· ≠ 0)).length) :
+    ∃ s, s < l.length ∧ l.getD s 0 ≠ 0 := by
+  obtain ⟨x, hx⟩ := List.exists_mem_of_length_pos (by omega : 0 < (l.filter (· ≠ 0)).length)
+  rw [List.mem_filter] at hx
+  obtain ⟨i, hi, rfl⟩ := List.getElem_of_mem hx.1
+  refine ⟨i, hi, ?_⟩
+  rw [List.getD_eq_getElem?_getD, List.getElem?_eq_getElem hi]
+  simpa using hx.2
+
+theorem bitsOf_inj (n a b : Nat) (ha : a < 2 ^ n) (hb : b < 2 ^ n) (h : bitsOf n a = bitsOf n b) : a = b := by
+  have := congrArg valOf h
+  rw [BV.Lemmas.HuffmanRead.valOf_bitsOf, BV.Lemmas.HuffmanRead.valOf_bitsOf, Nat.mod_eq_of_lt ha,
+    Nat.mod_eq_of_lt hb] at this
+  exact this
+
+/-- the NSYM = 1 description is read by `readCode` as the single symbol -/
+theorem readCode_single (A s : Nat) (rest : List Bool) (hs : s < A) (hb : s < 2 ^ alphabetBits A) :
+    readCode A (bitsOf 4 1 ++ bitsOf (alphabetBits A) s ++ rest) = some (Code.single s, rest) := by
+  unfold readCode
+  rw [List.append_assoc, takeBits_bitsOf 4 1 _ (by decide)]
+  simp only
+  rw [takeBits_bitsOf _ _ _ hb]
+  simp [hs]
+
+/-- the all-zero tables of the NSYM = 1 case write nothing for the symbol -/
+theorem symIO_single (n s : Nat) (hs : s < n) :
+    SymIO (List.replicate n 0) (List.replicate n 0) (Code.single s) s := by
+  refine ⟨[], ?_, ?_⟩
+  · intro w
+    unfold storeSym
+    rw [getAt_getD _ s (by simpa using hs), Out.bind_ok, Out.bind_ok,
+      getD_replicate_zero, writeBits_ok 0 0 w (by decide) (by decide)]
+    simp [bitsOf]
+  · intro rest
+    simp [Code.read]
+
+open BV.Lemmas.HuffmanCreate (GoodDepth) in
+open BV.Lemmas.HuffmanEntry (GoodBits) in
+/-- **one `BuildAndStoreHuffmanTree` call round-trips** (all forms: NSYM = 1 incl. the empty histogram,
+the simple forms NSYM = 2..4, the complex form), from C17's `build_and_store_roundtrip` -/
+theorem codeFacts_of_build (h : List Nat) (len A : Nat) (w0 w1 : Writer) (d b : List Nat)
+    (hlen : len ≤ h.length) (h704 : len ≤ 704) (hsum : h.sum ≤ 2 ^ 25) (hA1 : 1 ≤ A) (hA : A ≤ len)
+    (hz : ∀ i, A ≤ i → h.getD i 0 = 0) (hAb : A ≤ 2 ^ alphabetBits A)
+    (hb : buildAndStoreHuffmanTree h len A scratchTree (List.replicate len 0) (List.replicate len 0) w0 = .ok (d, b, w1)) :
+    CodeFacts h len A w0 w1 d b := by
+  have hst : scratchTree.length = 1409 := by unfold scratchTree; rw [List.length_replicate]
+  have hsum' : (h.take len).sum ≤ 2 ^ 25 := Nat.le_trans (BV.Lemmas.HuffmanEntry.sum_take_le h len) hsum
+  have key := fun rest => BV.Lemmas.HuffmanEntryPoints.build_and_store_roundtrip h len A len scratchTree w0 rest d b w1
+    hlen h704 hsum' (by omega) (by omega) (Nat.le_refl _) hA1 hA (fun i hi _ => hz i hi) hb
+  obtain ⟨cb, e, _, _, _⟩ := key []
+  have key' : ∀ rest,
+      (2 ≤ ((h.take len).filter (· ≠ 0)).length →
+        readPrefixCode A (cb ++ rest) = some (d.take A, rest) ∧
+        GoodDepth h len 15 (List.replicate len 0) d ∧ GoodBits len d (List.replicate len 0) b) ∧
+      (∀ s, s < len → h.getD s 0 ≠ 0 → ((h.take len).filter (· ≠ 0)).length = 1 →
+          cb = bitsOf 4 1 ++ bitsOf (alphabetBits A) s ∧ d = List.replicate len 0 ∧ b = List.replicate len 0) ∧
+      (((h.take len).filter (· ≠ 0)).length = 0 →
+          cb = bitsOf 4 1 ++ bitsOf (alphabetBits A) 0 ∧ d = List.replicate len 0 ∧ b = List.replicate len 0) := by
+    intro rest
+    obtain ⟨cb', e', k⟩ := key rest
+    have : cb' = cb := List.append_cancel_left (e'.symm.trans e)
+    rw [this] at k
+    exact k
+  have hgt : ∀ s, s < len → (h.take len).getD s 0 = h.getD s 0 := fun s hs => getD_take h len s hs
+  have htl : (h.take len).length = len := by rw [List.length_take]; omega
+  rcases Nat.lt_or_ge ((h.take len).filter (· ≠ 0)).length 2 with hnz | hnz
+  · rcases Nat.eq_zero_or_pos ((h.take len).filter (· ≠ 0)).length with h0 | h1
+    · -- empty histogram
+      obtain ⟨ecb, ed, eb⟩ := (key' []).2.2 h0
+      refine ⟨cb, Code.single 0, e, ?_, ?_⟩
+      · intro rest
+        rw [ecb]
+        exact readCode_single A 0 rest (by omega) (Nat.pow_pos (by decide))
+      · intro s hs hne
+        exfalso
+        have := BV.Lemmas.HuffmanStoreTree.one_nz (h.take len) s (by omega) (by rw [hgt s hs]; exact hne)
+        omega
+    · -- a single symbol
+      obtain ⟨s, hs, hne⟩ := exists_nz_of_filter (h.take len) h1
+      rw [htl] at hs
+      rw [hgt s hs] at hne
+      have hsA : s < A := by
+        rcases Nat.lt_or_ge s A with h | h
+        · exact h
+        · exact absurd (hz s h) hne
+      obtain ⟨ecb, ed, eb⟩ := (key' []).2.1 s hs hne (by omega)
+      refine ⟨cb, Code.single s, e, ?_, ?_⟩
+      · intro rest
+        rw [ecb]
+        exact readCode_single A s rest hsA (by omega)
+      · intro s' hs' hne'
+        have hs'A : s' < A := by
+          rcases Nat.lt_or_ge s' A with h | h
+          · exact h
+          · exact absurd (hz s' h) hne'
+        obtain ⟨ecb', _, _⟩ := (key' []).2.1 s' hs' hne' (by omega)
+        have hss : s' = s := by
+          have := ecb'.symm.trans ecb
+          exact bitsOf_inj _ _ _ (by omega) (by omega) (List.append_cancel_left this)
+        rw [hss, ed, eb]
+        exact symIO_single len s hs
+  · -- two or more symbols
+    obtain ⟨_, hg, hgb⟩ := (key' []).1 hnz
+    have hdl : d.length = len := by rw [hg.hlen]; simp
+    have hbl : b.length = len := by rw [hgb.1]; simp
+    have hzd : ∀ i, A ≤ i → i < len → d.getD i 0 = 0 := by
+      intro i hi hil
+      rcases Nat.eq_zero_or_pos (d.getD i 0) with h0 | h0
+      · exact h0
+      · exact absurd (hz i hi) ((hg.hsupp i hil).mp (by omega))
+    have h2d : 2 ≤ ((d.take len).filter (· ≠ 0)).length := by
+      rw [filter_nz_congr (d.take len) (h.take len) (by rw [List.length_take, htl]; omega) (by
+        intro v hv
+        rw [List.length_take, hdl, Nat.min_self] at hv
+        rw [getD_take d len v hv, hgt v hv]
+        exact hg.hsupp v hv)]
+      exact hnz
+    refine ⟨cb, Code.lens (d.take A), e, ?_, ?_⟩
+    · intro rest
+      obtain ⟨hr, _, _⟩ := (key' rest).1 hnz
+      obtain ⟨s, hs, hne⟩ := exists_nz_of_filter (h.take len) (by omega)
+      rw [htl] at hs
+      rw [hgt s hs] at hne
+      have hsA : s < A := by
+        rcases Nat.lt_or_ge s A with h | h
+        · exact h
+        · exact absurd (hz s h) hne
+      exact readCode_of_prefix A _ rest _ hr ⟨s, by rw [getD_take d A s hsA]; exact (hg.hsupp s hs).mpr hne⟩
+    · intro s hs hne
+      exact symIO_of_lens d b len A s hA (by omega) (by omega) hzd hg.hlim hg.hkraft
+        (fun i hi h0 => by have := hgb.2.2 i hi; rw [if_pos h0] at this; exact this)
+        h2d hs ((hg.hsupp s hs).mpr hne)
 
 end BV.MetaBlock
